@@ -4,6 +4,7 @@ import (
 	"fmt"
 	"go/ast"
 	"go/token"
+	"go/types"
 	"sort"
 	"strconv"
 	"strings"
@@ -327,6 +328,7 @@ func c14(r *Report) {
 	})
 
 	r.Guard("C14.R5", "a request whose Via names this proxy is not sent upstream and is answered 400", func() {
+		skipDecisionRule(r)
 		g := G(vreq)
 		loops := plainCalls(vreq, "(*M/header.ViaModifier).hasLoop")
 		if len(loops) != 1 {
@@ -814,6 +816,45 @@ func c14(r *Report) {
 				if rel, adm := constCmpAdmits(ce, isLenOfCL, 1); rel {
 					r.Decide("path", "framing modifier: Content-Length values are compared even when the header has a single line", adm, "the guard on the number of Content-Length lines admits one line", "the mismatch test is skipped for a single Content-Length line: conflicting values folded into one line (\"42, 32\") are not flagged", ce.If.Pos())
 				}
+			}
+		}
+		// an element of a framing header that cannot be read is a bad framing, not an element to
+		// skip: the failure edge of every fallible step in the modifier ends in an error (it neither
+		// goes on with the next element nor accepts the request)
+		{
+			g0 := G(bf)
+			for _, c := range plainCalls(bf) {
+				tup, isTup := c.Type().(*types.Tuple)
+				if !isTup || tup.Len() == 0 || !isErrorType(tup.At(tup.Len()-1).Type()) {
+					continue
+				}
+				tests := errTests(c)
+				okE := len(tests) > 0
+				for _, e := range tests {
+					// continuing: the test is reached again from its failure edge
+					if p := g0.PathTo(blockStart(e.NonNil), true, nil, func(i ssa.Instruction) bool { return i == ssa.Instruction(e.If) }); p != nil {
+						okE = false
+					}
+					// accepting: a return of a nil error from the failure edge
+					if p := g0.PathTo(blockStart(e.NonNil), true, nil, func(i ssa.Instruction) bool {
+						ret, isR := i.(*ssa.Return)
+						if !isR || len(ret.Results) == 0 {
+							return false
+						}
+						for _, v := range retVals(ret, len(ret.Results)-1) {
+							for _, l := range resolveAll(v) {
+								if isNilConst(l) {
+									return true
+								}
+							}
+						}
+						return false
+					}); p != nil {
+						okE = false
+					}
+				}
+				r.Sites++
+				r.Decide("path", "framing modifier: a failure of "+site(bf, c)+" is a framing error", okE, "the failure edge leads to an error return only", "an element that cannot be read ("+calleeName(c)+" fails) is skipped or accepted: a conflicting value that is not a plain number (overflowing, hexadecimal, garbage) is dropped from the comparison and the request passes with the surviving value", c.Pos())
 			}
 		}
 		// both headers are examined before a request is accepted: no successful return is
